@@ -436,8 +436,8 @@ def replay(ctx, payload):
 
 LEVEL_TEXT = ('Machine-checked proof (Lean 4) over a hand-written model of FileInspector.safety_check, SafetyCheck.__call__, '
               'the per-format check functions, detect_file_format and the CLI exit status; see the theorem list in '
-              'lean/OsloProofs/Props/C02.lean (acceptance characterisations per format; VMDK text-descriptor mode is '
-              'excluded from the VMDK theorem - known finding KF_F1). The model is tied to the code by a differential '
+              'lean/OsloProofs/Props/C02*.lean (gate theorems; byte-level acceptance iff for qcow2, LUKS, MBR/GPT and sparse-mode '
+              'VMDK; VMDK text-descriptor mode is excluded from the VMDK theorem - known finding KF_F1). The model is tied to the code by a differential '
               'correspondence on trait-combination images under many chunkings and on files through the CLI on every run.')
 LEVEL_NOTE = ('Trusted: Lean kernel; the hand model and the translator for region tables / constants / check names; the '
               'correspondence harness; argparse and the file system are not modelled.')
